@@ -227,6 +227,12 @@ def _check_frame(plan, ctx):
         x = objs[c["recv"] % len(objs)]
         y = objs[c["arg"] % len(objs)]
         operands = [x] if y is x else [x, y]
+        pregrouped = None
+        if c["a"] in (3, 5) and m not in ("group_by", "modify_grouped", "aggregate", "aggregate_lambda") and len(x):
+            # the receiver is already grouped (documented effect of group_by): the call must leave that grouping alone
+            pregrouped = x._group_colnames
+            x._group_colnames = (next(iter(dict.keys(x))),)
+            ctx.cls("call_on_grouped_receiver")
         snaps = [build.snap_frame(o) for o in operands]
         try:
             with np.errstate(all="ignore"):
@@ -234,11 +240,22 @@ def _check_frame(plan, ctx):
         except Exception as e:
             if m in ("modify_grouped", "aggregate", "aggregate_lambda"):
                 x._group_colnames = snaps[0][2]
+            if pregrouped is not None:
+                if tuple(x._group_colnames) != snaps[0][2]:
+                    raise Violation(f"{m} raised and changed the grouping of its receiver")
+                x._group_colnames = pregrouped
+                snaps[0] = build.snap_frame(x)
             if [build.snap_frame(o) for o in operands] != snaps:
                 raise Violation(f"{m} raised and left an operand changed", call=no, exc=f"{type(e).__name__}: {e}"[:200])
             ctx.reject(f"{m} raises on these operands: {type(e).__name__}")
             continue
         ctx.cls("m_" + m)
+        if pregrouped is not None:
+            after_g = tuple(x._group_colnames)
+            if after_g != snaps[0][2]:
+                raise Violation(f"{m} changed the grouping of its (already grouped) receiver", before=snaps[0][2], after=after_g)
+            x._group_colnames = pregrouped
+            snaps[0] = build.snap_frame(x)
         if m == "group_by":
             if res is not x or tuple(x._group_colnames) == ():
                 raise Violation("group_by is documented to mark and return the receiver")
